@@ -70,6 +70,7 @@ fn dispatch(sub: &str, a: &Args) -> Option<Report> {
     "ggm-record" => ggm::record(a),
     "ggm-pairs" => ggm::pairs(a),
     "ggm-export" => ggm::export(a),
+    "ggm-sparse" => ggm::sparse(a),
     "wire-replay" => wire::replay(a),
     "wire-record" => wire::record(a),
     "crash-sweep" => wire::crash_sweep(a),
@@ -91,6 +92,7 @@ fn dispatch(sub: &str, a: &Args) -> Option<Report> {
     "generator-reuse" => star2::generator_reuse(a),
     "length-sweep" => star2::length_sweep(a),
     "cipher-check" => star2::cipher_check(a),
+    "nonce-space" => star2::nonce_space(a),
     "purity-record" => pure::record(a),
     _ => return None,
   })
